@@ -270,6 +270,9 @@ def run(tier, replay):
                 done = {x["id"].split(":")[0] for x in res}
                 nxt = [l for l in shards[i] if l.split()[1] not in done]
                 ck.violation("cosim-crash", "co-simulation harness died (rc=%s): %s" % (rc, tail[-600:]), {"job": nxt[0] if nxt else None})
+                # the trace files of a shard that died end inside an execution: validate what is complete
+                for tf_ in (os.path.join(wd, "sch%d.ndjson" % i), os.path.join(wd, "bb%d.ndjson" % i)):
+                    c01.trim_trace(tf_)
             results += res
     # ---- 3. classify
     cls_count = collections.Counter()
